@@ -139,3 +139,137 @@ impl<T: PartialEq> FromIterator<T> for HashSet<T> {
 }
 
 pub type FnvHashSet<T> = HashSet<T>;
+
+/// I/O shim: `BufReader<File>` as *environment*.  Mounted under cfg(kani) in src/helpers.rs and
+/// src/executor.rs instead of std::io::BufReader.  A reader is a window on one of two symbolic files
+/// (selected by the raw fd of the `File` it was built from): content bytes, a read position and a visible
+/// length that every read may advance (= a writer appending while we read).  `read_line` implements the
+/// documented contract of `BufRead::read_line`: consume the unread visible bytes up to and including the
+/// first `\n` (all of them if there is none), append them to the string if they are UTF-8, otherwise return
+/// InvalidData leaving the string untouched; Ok(0) at end of (visible) file.  A global budget of reads
+/// stands for "the follower is eventually stopped": when it is used up, reads fail.
+pub mod io {
+    use std::io::{BufRead, ErrorKind, Read, Result, Seek, SeekFrom};
+    use std::marker::PhantomData;
+    use std::os::unix::io::AsRawFd;
+
+    pub const MAX_FILE: usize = 4;
+
+    #[derive(Clone, Copy)]
+    pub struct SymFile {
+        pub content: [u8; MAX_FILE],
+        pub len: usize,        // final length of the file
+        pub visible: usize,    // bytes written so far (<= len)
+        pub pos: usize,        // read position (<= visible)
+        pub growing: bool,     // may `visible` advance between reads?
+    }
+
+    pub static mut FILES: [SymFile; 2] = [SymFile { content: [0; MAX_FILE], len: 0, visible: 0, pos: 0, growing: false }; 2];
+    pub static mut READ_BUDGET: usize = 0;
+    pub static mut READ_CALLS: usize = 0;
+
+    pub struct BufReader<R> {
+        slot: usize,
+        _inner: PhantomData<R>,
+        _file: std::mem::ManuallyDrop<R>,
+    }
+
+    impl<R: AsRawFd> BufReader<R> {
+        pub fn new(inner: R) -> BufReader<R> {
+            let slot = if inner.as_raw_fd() == 4 { 1 } else { 0 };
+            BufReader { slot, _inner: PhantomData, _file: std::mem::ManuallyDrop::new(inner) }
+        }
+    }
+
+    impl<R> BufReader<R> {
+        fn advance_visibility(&mut self) {
+            unsafe {
+                let f = &mut FILES[self.slot];
+                if f.growing {
+                    let v: usize = kani::any();
+                    kani::assume(v >= f.visible && v <= f.len);
+                    f.visible = v;
+                }
+            }
+        }
+    }
+
+    impl<R> Read for BufReader<R> {
+        fn read(&mut self, buf: &mut [u8]) -> Result<usize> {
+            self.advance_visibility();
+            unsafe {
+                let f = &mut FILES[self.slot];
+                let mut n = 0;
+                while n < buf.len() && f.pos < f.visible {
+                    buf[n] = f.content[f.pos];
+                    f.pos += 1;
+                    n += 1;
+                }
+                Ok(n)
+            }
+        }
+    }
+
+    impl<R> BufRead for BufReader<R> {
+        fn fill_buf(&mut self) -> Result<&[u8]> {
+            self.advance_visibility();
+            unsafe {
+                let f = &FILES[self.slot];
+                Ok(&f.content[f.pos..f.visible])
+            }
+        }
+
+        fn consume(&mut self, amt: usize) {
+            unsafe {
+                let f = &mut FILES[self.slot];
+                f.pos = if f.pos + amt > f.visible { f.visible } else { f.pos + amt };
+            }
+        }
+
+        fn read_line(&mut self, buf: &mut String) -> Result<usize> {
+            unsafe {
+                READ_CALLS += 1;
+                if READ_CALLS > READ_BUDGET {
+                    return Err(ErrorKind::Interrupted.into());
+                }
+            }
+            self.advance_visibility();
+            unsafe {
+                let f = &mut FILES[self.slot];
+                let start = f.pos;
+                let mut end = f.pos;
+                let mut valid = true;
+                while end < f.visible {
+                    let b = f.content[end];
+                    end += 1;
+                    if b >= 0x80 { valid = false; }   // the harness alphabets use 0xFF as "not UTF-8"; no multi-byte characters
+                    if b == b'\n' { break; }
+                }
+                f.pos = end;
+                if !valid {
+                    return Err(ErrorKind::InvalidData.into());
+                }
+                let mut i = start;
+                while i < end {
+                    buf.push(f.content[i] as char);
+                    i += 1;
+                }
+                Ok(end - start)
+            }
+        }
+    }
+
+    impl<R> Seek for BufReader<R> {
+        fn seek(&mut self, pos: SeekFrom) -> Result<u64> {
+            unsafe {
+                let f = &mut FILES[self.slot];
+                match pos {
+                    SeekFrom::Start(p) => { f.pos = if (p as usize) < f.visible { p as usize } else { f.visible }; }
+                    SeekFrom::End(_) => { f.pos = f.visible; }
+                    SeekFrom::Current(_) => {}
+                }
+                Ok(f.pos as u64)
+            }
+        }
+    }
+}
